@@ -194,8 +194,7 @@ def _only_eq_prefix(da, dbb, ymd: str) -> bool:
 
 def run_case(acc: Acc, seed: int, idx: int) -> None:
     rng = rng_for(ID, seed, idx)
-    root = harness.fresh_dir("c11") / "org"
-    root.mkdir()
+    root = harness.notes_root("c11", idx)  # (some directories are reached through a symlink / a '..' component)
     opts = pg.GenOpts(max_items=3, max_blocks=2, allow_mod_without_zid=False, p_zid=rng.choice([0.6, 0.9, 1.0]), p_mod=0.4, p_mod_equals_create=(0.35 if idx % 2 else 0.0))
     allow = set(histrun.ALL_STEPS) - {"delete_page", "rename_page", "add_page", "break_page", "repair_page", "restore_page"}
     run = histrun.Runner(rng, root, opts, allow=allow, n_pages=rng.choice([2, 3]))
